@@ -570,6 +570,24 @@ pub fn len_corruptions(enc: &W) -> Vec<Corruption> {
     out
 }
 
+/// every single-bit flip of every length field (one corruption per bit): reaches values such as
+/// true + k*256 or true + k*65536 that the five classic corruptions do not
+pub fn len_bitflips(enc: &W) -> Vec<Corruption> {
+    let mut out = Vec::new();
+    for f in &enc.lens {
+        for bit in 0..(8 * f.width) {
+            let mut b = enc.b.clone();
+            set_len(&mut b, f, f.val ^ (1u64 << bit));
+            out.push(Corruption {
+                kind: "bitflip",
+                field: f.name,
+                bytes: b,
+            });
+        }
+    }
+    out
+}
+
 /// a byte drawn half from a small set of values that code tends to compare against
 pub fn interesting_byte(r: &mut Rng) -> u8 {
     const I: [u8; 28] = [0, 1, 2, 3, 4, 5, 6, 0x0a, 0x0b, 0x0d, 0x0f, 0x10, 0x14, 0x15, 0x16, 0x17, 0x18, 0x20, 0x21, 0x40, 0x7f, 0x80, 0x81, 0xfe, 0xff, 0xfd, 0x41, 0x1a];
